@@ -57,6 +57,34 @@ FRESH = (
     "an interpolation / blend weight evaluated at the wrong end; a cached property invalidated on one of two setters.")
 
 
+USED8 = (
+    " Also used in round 7: in-place operators on the caller's objects (x[0:3] = ..., q[0] *= s, groups += [other], expB = B "
+    "then writing the diagonal, self.param *= right); late-binding closures in a loop; a generator consumed twice; glob patterns "
+    "that match a sibling's files; a guard negated with the wrong strictness (> for not <); strict vs non-strict ties between "
+    "branch selectors; saturating before instead of after adding a term; fmin/fmax caps and 'floors' on series coefficients or "
+    "covariance factors; 'cancellation-free' rewrites with a new cancellation elsewhere (1 + cos); Poly.coeffs() vs all_coeffs(); "
+    "a block shortcut of a Kalman update; tril(Q) for Q; previous stage reused in a Runge-Kutta step; stale snapshot of a state; "
+    "status fields read outside the branch that binds them; early return before initialisation; Lt for Le; tuple targets in the wrong order; "
+    "base case of a recursion (deriv(0)); Horner / power-basis evaluation of a Bernstein polynomial; re-entrancy guards that drop messages.")
+
+FRESH8 = (
+    "a quantity cached on first use that should follow a later parameter change (gains, dt, geometry captured at construction); "
+    "a unit-norm or orthogonality assumption used where the input is only approximately normalised; an index computed from a "
+    "float (int(t/dt), round) that is off by one for some magnitudes; a condition on a sum of squares that underflows or "
+    "overflows; a comparison against a constant in the wrong units at one site; min/max over an axis of the wrong array; a sign "
+    "taken from the wrong operand in an atan2 / copysign; symmetric limits assumed for asymmetric ones; a swap of two outputs "
+    "that coincide in the tested configuration (roll/pitch symmetric vehicles, equal gains); a formula specialised to the "
+    "default parameter values (diagonal inertia, equal arm lengths, g = 9.8, CM/CT ratio, dt = 0.005) that is wrong for other "
+    "physically meaningful values; a wrong but plausible frame (body vs world) for a quantity that is zero or aligned in the "
+    "tested cases; a time argument evaluated at the start instead of the end of a step; a correction applied with the prior's "
+    "instead of the posterior's value; an error code returned but the state still overwritten (or the reverse); a loop over "
+    "range(n - 1) dropping the last row/rotor/state; zero-based vs one-based derivative order; a matrix exponential / series "
+    "truncated one term early for ONE of several table entries; fmod / atan2 wrap applied to a difference instead of the "
+    "angle; option dictionaries merged in the wrong precedence (user value overridden by a default for ONE key); a file opened "
+    "in append mode; messages delivered to subscribers registered AFTER the publish started; parameters declared twice with "
+    "different defaults; a logger sampling one period late/early at a boundary tick.")
+
+
 def sites(pid):
     ids = CLUSTER.get(pid, [pid])
     out = []
@@ -81,9 +109,10 @@ def main():
         t = t.replace("mut6_", f"mut{rnd}_")
         a = t.index("DIVERSITY NOTE")
         b = t.index("FINAL REPORT")
+        used, fresh = (USED + USED8, FRESH8) if rnd == "8" else (USED, FRESH)
         note = ("DIVERSITY NOTE: earlier rounds already used changes at these sites, so do NOT use them (or near variants "
                 "of them) again: " + " || ".join(sites(pid)) + ". Kinds of change already used in earlier rounds (find a "
-                "DIFFERENT kind, do not reuse these): " + USED + " Kinds NOT yet used that you might consider: " + FRESH +
+                "DIFFERENT kind, do not reuse these): " + used + " Kinds NOT yet used that you might consider: " + fresh +
                 "\n\nKeep every message you write short (a few hundred words at most); never paste whole files or long "
                 "outputs into a message.\n\n")
         open(os.path.join(odir, f"mutprompt{rnd}_{pid}.txt"), "w").write(t[:a] + note + t[b:])
